@@ -25,6 +25,8 @@ OWNERS = {
     'C13': ['C13.'],
     'C16': ['C16.'],
     'C20': ['C20.'],
+    'C09': ['C09.'],
+    'C10': ['C10.'],
 }
 
 
@@ -257,7 +259,7 @@ DBUF_ASSUME = [
 ]
 
 
-COMP_TRACE = {'config': 'Config_Trace', 'tworun': 'TwoRun_Trace', 'dbuf': 'DecoderBuf_Trace', 'dec': 'Decoder_Trace', 'parser': 'Parser_Trace', 'wrap': 'Wrap_Trace'}
+COMP_TRACE = {'suffix': 'Suffix_Trace', 'config': 'Config_Trace', 'tworun': 'TwoRun_Trace', 'dbuf': 'DecoderBuf_Trace', 'dec': 'Decoder_Trace', 'parser': 'Parser_Trace', 'wrap': 'Wrap_Trace'}
 
 
 def replay(ctx, fam, path):
@@ -885,6 +887,98 @@ CONFIG_ASSUME = [
     'memory: NewParser is not called when the defaults-completed configuration needs a hash table of more than 2^20 entries (new = skipped); buffers above 300 bytes are never filled',
 ]
 
+
+# ----------------------------------------------------------------------------
+# Suffix family: C09 C10
+# ----------------------------------------------------------------------------
+def suffix_mutants(evs):
+    for i, e in enumerate(evs):
+        if e['op'] == 'suffix' and len(e['t']) >= 4 and e.get('lcps'):
+            m = copy.deepcopy(evs)
+            m[i]['sa'][0], m[i]['sa'][1] = m[i]['sa'][1], m[i]['sa'][0]
+            yield 'swapsa', m
+            m2 = copy.deepcopy(evs)
+            m2[i]['lcps'][0][-1] += 1
+            yield 'lcpplus', m2
+            return
+        if e['op'] == 'segments' and len(e.get('cbs') or []) >= 1 and e['minlen'] <= e['maxlen']:
+            big = [k for k, cb in enumerate(e['cbs']) if len(cb[1]) >= 2]
+            if not big:
+                continue
+            m = copy.deepcopy(evs)
+            m[i]['cbs'][big[0]][1] = m[i]['cbs'][big[0]][1][1:]      # incomplete group
+            yield 'dropmember', m
+            m2 = copy.deepcopy(evs)
+            m2[i]['cbs'].append(copy.deepcopy(m2[i]['cbs'][big[0]]))   # reported twice
+            yield 'dupgroup', m2
+            return
+
+
+def suffix_features(evs):
+    f = set()
+    for e in evs[1:]:
+        if e['op'] == 'suffix':
+            n = len(e['t'])
+            f.add('sort_n<=48' if n <= 48 else ('sort_n<=1000' if n <= 1000 else 'sort_n>1000'))
+            if e.get('lcps') and n > 0 and max(e['lcps'][0]) >= 8:
+                f.add('lcp>=8')
+        elif e['op'] == 'suffixcfg':
+            f.add('thresholds')
+        elif e['op'] == 'segments':
+            if e['cbs']:
+                f.add('groups')
+            if len(e['cbs']) >= 10:
+                f.add('groups>=10')
+            if e.get('permute'):
+                f.add('consumer_permutes')
+            if len(e['t']) > 40:
+                f.add('interval_form')
+        elif e['op'] in ('panic', 'timeout'):
+            f.add(e['op'])
+    return f
+
+
+def chunk_suffix(ops, tid, size, tags):
+    return [dict(tid='%s-%d' % (tid, i // size), comp='suffix', cfg={}, ops=ops[i:i + size], tags=list(tags))
+            for i in range(0, len(ops), size)]
+
+
+def run_suffix(ctx, fam):
+    t = ctx.thorough()
+    scripts = []
+    if ctx.prop == 'C09':
+        log('[C09] design model check (linear suffix-array checker <=> definition, LCP check forms, on every text and EVERY permutation)')
+        vlib.tlc_mc(ctx, 'SuffixEqMC.tla', 'SuffixEqMC_T.cfg' if t else 'SuffixEqMC.cfg', workers='16', timeout=1500)
+        log('[C09] enumerating short texts (TLC) and structured texts (seeded)')
+        ops = []
+        for cfg in (['SuffixGen_bT.cfg', 'SuffixGen_tT.cfg'] if t else ['SuffixGen_b.cfg', 'SuffixGen_t.cfg']):
+            ops += vlib.tlc_enum(ctx, 'SuffixGen.tla', cfg)
+        # the same texts through the threshold hook (informational, DRIFT09.*)
+        ops2 = []
+        for i, o in enumerate(ops):
+            ops2.append(o)
+            if len(o['t']) >= 3 and (t or i % 4 == 0):
+                ops2.append(dict(op='suffixcfg', t=o['t'], st=1 + i % 2, trst=1 + (i // 2) % 2))
+        scripts += chunk_suffix(ops2, 'suffix-enum', 400, ['tlc-enum'])
+        scripts += vlib.go_gen(ctx, 'suffix', 1200 if t else 160, ctx.seed)
+    else:
+        log('[C10] design model check (transcribed scanLCP against the C10 rules on every small text and every minLen <= maxLen) + enumeration')
+        hist = vlib.tlc_cover(ctx, 'Segments.tla', 'Segments_T.cfg' if t else 'Segments_carry.cfg', timeout=2400)
+        ops = [h[0] for h in hist]
+        for i, o in enumerate(ops):
+            o['src'] = 'lib' if i % 2 == 0 else 'naive'
+            o['permute'] = (i // 2) % 2 == 1
+        scripts += chunk_suffix(ops, 'segments-enum', 400, ['tlc-enum'])
+        scripts += vlib.go_gen(ctx, 'segments', 500 if t else 70, ctx.seed)
+    scripts += corpus_scripts('suffix')
+    return finish(ctx, fam, scripts, 'Suffix_Trace', suffix_mutants, suffix_features, call_timeout='20s')
+
+
+SUFFIX_ASSUME = [
+    'TLC evaluates SuffixDefs.tla correctly (the linear rank-based checker is model-checked against the definition on all small texts and all permutations); the recorder logs texts, arrays and callbacks verbatim (binding self-test)',
+    'recorded texts are <= 4096 bytes (<= 1500 in the quick tier; <= 700 for single runs, <= 600 for Segments): deep DivSufSort paths that need larger inputs with production thresholds are reached through the verif-tagged SortCfg hook only (informational DRIFT09 rules)',
+]
+
 MIX_GENERAL = dict(walks=140, go=[('parser', 350), ('parser-runs', 49), ('parser-osap', 28), ('parser-cap', 28)])
 
 def fam_dbuf(rule):
@@ -892,6 +986,10 @@ def fam_dbuf(rule):
 
 
 PROPS = {
+    'C09': dict(run=run_suffix, trace_module='Suffix_Trace', assumptions=SUFFIX_ASSUME,
+                rule='texts = every text over {0,1} up to length 9 (12 thorough) and {0,1,2} up to 6 (8) enumerated by TLC + seeded structured texts (two-letter runs with random run lengths, periodic prefixes broken once, all 256 byte values, repeated blocks, Fibonacci, Thue-Morse, de Bruijn, k-ary random, runs); per text one event with Sort (sa pre-filled with garbage), the text afterwards, InvertSA and LCP in its four call forms; rules C09.perm, sorted (rank-based linear checker, plus the definition up to 48 bytes), t_untouched, inverse, lcp0, lcp; non-trivial = distinct script with texts of several size classes or LCP values >= 8'),
+    'C10': dict(run=run_suffix, trace_module='Suffix_Trace', assumptions=SUFFIX_ASSUME,
+                rule='(t, minLen, maxLen) = every text over {0,1} up to length 7 with 0 <= minLen <= maxLen <= 3 (thorough: {0,1,2} up to 6, maxLen <= 4) from the TLC run of Segments.tla + seeded longer texts (nested prefixes, falling-rising LCP profiles, runs), suffix array and LCP table from suffix.Sort/LCP or computed naively (both validated first), consumers that do or do not reorder the segment; rules C10.m_range, members_distinct, members_share, pair_once (pairwise form up to 40 bytes, lcp-interval form above), children_first, no_panic; non-trivial = distinct script with groups'),
     'C20': dict(run=run_multi, trace_module=None, parts=[
         dict(run=run_config, trace_module='Config_Trace', assumptions=CONFIG_ASSUME,
              rule='configuration values = every point of the TLC-enumerated boundary grid (ConfigMC, all seven types) + seeded values (negative, zero, 2^31, 2^32-7, 2^40, 2^62) + JSON documents (unknown / mismatching / missing Type, wrong value types, truncated, mutated); one event per value with everything the code derives from it; rules C20.json_roundtrip, json_reject, clone_equal, clone_independent, defaults_idempotent, defaults_only_zero, reported_config; non-trivial = distinct script with accepted and refused values, applied defaults, negative or huge fields'),
